@@ -240,3 +240,101 @@ Proof.
   rewrite forallb_forall in H. specialize (H o Ho). rewrite Hst, Hf in H. cbn in H.
   apply andb_true_iff in H. destruct H as [A B]. apply Z.eqb_eq in A. apply Z.leb_le in B. auto.
 Qed.
+
+(** * the simulator refines the LTS
+
+    What is compared with the implementation is [simulate]; what the theorems are about is the
+    LTS.  Every step of the simulator is a (possibly empty) sequence of LTS steps - except the
+    content patch of a creator that crashed in the MIDDLE of its write ([ECrashCreate] with the
+    garbage flag), which is outside the LTS by design. *)
+Lemma take_sound c m l m' : take c m l = Some m' -> step c (sst m) l = Some (sst m').
+Proof. unfold take. destruct (step c (sst m) l) as [s'|]; [|discriminate]. intros H; injection H as <-. reflexivity. Qed.
+
+Definition no_garbage_crash (sc : list (Z * sevent)) : Prop :=
+  forall t e, In (t, e) sc -> match e with ECrashCreate _ _ g => g = false | _ => True end.
+
+Lemma crash_create_sound c m t p : exists ls, run c (sst m) ls = Some (sst (crash_create c m t p false)).
+Proof.
+  unfold crash_create.
+  destruct (take c m (LStart t p)) as [m1|] eqn:E1; [|exists []; reflexivity].
+  pose proof (take_sound _ _ _ _ E1) as S1.
+  destruct (take c m1 (LTryCreate t)) as [m2|] eqn:E2; [|exists [LStart t p]; cbn [run]; rewrite S1; reflexivity].
+  pose proof (take_sound _ _ _ _ E2) as S2.
+  destruct (take c m2 (LKill p)) as [m3|] eqn:E3.
+  - pose proof (take_sound _ _ _ _ E3) as S3. exists [LStart t p; LTryCreate t; LKill p]. cbn [run]. rewrite S1, S2, S3.
+    destruct (cs (sst m2) t); reflexivity.
+  - exists [LStart t p; LTryCreate t]. cbn [run]. rewrite S1, S2. reflexivity.
+Qed.
+
+Theorem sim_step_refines_lts c m m' : sim_step c m = Some m' -> no_garbage_crash (script m) ->
+  exists ls, run c (sst m) ls = Some (sst m').
+Proof.
+  unfold sim_step. intros H Hng.
+  repeat match type of H with
+         | context [match ?x with _ => _ end] =>
+             lazymatch type of x with config => fail | sim => fail | state => fail | _ => destruct x eqn:? end
+         | context [if ?b then _ else _] => destruct b eqn:?
+         end;
+    try discriminate.
+  all: try (match type of H with Some _ = Some _ => injection H as <- end).
+  all: first
+    [ match goal with |- context [crash_create ?cc ?mm ?t ?p ?g] =>
+        assert (g = false) as -> by (match goal with Hn : no_garbage_crash (_ :: _) |- _ => exact (Hn _ _ (or_introl eq_refl)) end);
+        destruct (crash_create_sound cc mm t p) as [ls0 Hls0]; exists ls0; exact Hls0 end
+    | match goal with E : take _ _ ?l = Some _ |- _ =>
+        exists [l]; cbn [run]; pose proof (take_sound _ _ _ _ E) as S; cbn [sst] in S; rewrite S; reflexivity end
+    | exists []; reflexivity ].
+Qed.
+
+Lemma run_app c ls1 : forall s s1 ls2 s2, run c s ls1 = Some s1 -> run c s1 ls2 = Some s2 -> run c s (ls1 ++ ls2) = Some s2.
+Proof.
+  induction ls1 as [|l ls1 IH]; intros s s1 ls2 s2; cbn [run app].
+  - intros H; injection H as <-. auto.
+  - destruct (step c s l) as [x|]; [|discriminate]. apply IH.
+Qed.
+
+Lemma take_script c m l m' : take c m l = Some m' -> script m' = script m.
+Proof. unfold take. destruct (step c (sst m) l); [|discriminate]. intros H; injection H as <-. reflexivity. Qed.
+Lemma crash_create_script c m t p g : script (crash_create c m t p g) = script m.
+Proof.
+  unfold crash_create.
+  destruct (take c m (LStart t p)) as [m1|] eqn:E1; [|reflexivity]. rewrite <- (take_script _ _ _ _ E1).
+  destruct (take c m1 (LTryCreate t)) as [m2|] eqn:E2; [|reflexivity]. rewrite <- (take_script _ _ _ _ E2).
+  destruct (take c m2 (LKill p)) as [m3|] eqn:E3; [|reflexivity]. rewrite <- (take_script _ _ _ _ E3).
+  destruct (cs (sst m2) t); try reflexivity. destruct g; reflexivity.
+Qed.
+
+Lemma sim_step_script c m m' : sim_step c m = Some m' -> forall x, In x (script m') -> In x (script m).
+Proof.
+  unfold sim_step. intros H.
+  repeat match type of H with
+         | context [match ?x with _ => _ end] =>
+             lazymatch type of x with config => fail | sim => fail | state => fail | _ => destruct x eqn:? end
+         | context [if ?b then _ else _] => destruct b eqn:?
+         end;
+    try discriminate.
+  all: try (match type of H with Some _ = Some _ => injection H as <- end).
+  all: intros x Hx.
+  all: first
+    [ match goal with E : take _ _ _ = Some _ |- _ => rewrite (take_script _ _ _ _ E) in Hx; cbn [script] in Hx end
+    | rewrite crash_create_script in Hx; cbn [script] in Hx
+    | cbn [script] in Hx ].
+  all: first [ exact Hx | right; exact Hx
+             | match goal with E : script _ = _ |- _ => rewrite E in Hx; exact Hx end
+             | match goal with E : script _ = _ :: _ |- _ => rewrite E; right; exact Hx end ].
+Qed.
+
+(** the whole simulation is a run of the LTS: whatever the correspondence compares with the
+    implementation is one of the schedules the theorems quantify over *)
+Theorem simulate_refines_lts c fuel : forall horizon m, no_garbage_crash (script m) ->
+  exists ls, run c (sst m) ls = Some (sst (simulate c fuel horizon m)).
+Proof.
+  induction fuel as [|k IH]; intros horizon m Hng; cbn [simulate].
+  - exists []. reflexivity.
+  - destruct (horizon <? now (sst m)); [exists []; reflexivity|].
+    destruct (sim_step c m) as [m1|] eqn:E; [|exists []; reflexivity].
+    destruct (sim_step_refines_lts c m m1 E Hng) as [ls1 H1].
+    assert (Hng1 : no_garbage_crash (script m1)).
+    { intros t e Hin. apply (Hng t e). exact (sim_step_script c m m1 E _ Hin). }
+    destruct (IH horizon m1 Hng1) as [ls2 H2]. exists (ls1 ++ ls2). exact (run_app c ls1 _ _ _ _ H1 H2).
+Qed.
